@@ -20,7 +20,20 @@ func CrashRecords(evs []Event) []any {
 			out = append(out, map[string]any{"ev": name, "safe": ev["safe"]})
 		case "Submit":
 			out = append(out, map[string]any{"ev": name, "b": ev["b"], "puts": ev["puts"], "dels": ev["dels"]})
-		case "IntroSegment", "Return", "Callback":
+		case "IntroSegment":
+			ep := 0
+			if rt, ok := ev["root"].(map[string]any); ok {
+				switch x := rt["epoch"].(type) {
+				case int:
+					ep = x
+				case float64:
+					ep = int(x)
+				}
+			}
+			out = append(out, map[string]any{"ev": name, "b": ev["b"], "epoch": ep})
+		case "PersistCommitted":
+			out = append(out, map[string]any{"ev": name, "epoch": ev["epoch"]})
+		case "Return", "Callback":
 			out = append(out, map[string]any{"ev": name, "b": ev["b"]})
 		case "CopyBegin", "Recovered", "PostWrite", "Points", "SourceAfter":
 			m := map[string]any{}
